@@ -61,10 +61,11 @@ import (
 )
 
 // c31SitePct: share (%) of the cases that run the Server's call sites. A site
-// case costs one process start per command (tens of ms on a busy machine), a
-// sched case a fraction of a millisecond. VERIF_C31_SITEPCT overrides the share
+// case costs one process start and two round trips with the process per command
+// (some 50 ms on a quiet machine, up to a second on a heavily loaded one), a
+// sched case a few milliseconds. VERIF_C31_SITEPCT overrides the share
 // (registry "env", e.g. for a tier that should spend more on this part).
-const c31SitePct = 5
+const c31SitePct = 2
 
 func c31SitePctEff() int {
 	if v, err := strconv.Atoi(os.Getenv("VERIF_C31_SITEPCT")); err == nil {
@@ -104,6 +105,8 @@ type c31Compound struct {
 	Tomb  []int `json:",omitempty"` // member positions (0, 1) carrying a tombstone
 }
 
+var c31SiteKinds = []string{"merge", "merge", "vacuum", "vacuum", "delete"}
+
 func genC31Site(g kit.G) c31Case {
 	c := c31Case{Mode: "site"}
 	names := []string{"a", "b", "c", "d"}[:g.Int(1, 4, "nnames")]
@@ -115,10 +118,10 @@ func genC31Site(g kit.G) c31Case {
 	}
 	l.Fresh = kit.Pick(g, []int{0, 0, 1, 2}, "fresh")
 	for i := 0; i < 2; i++ {
-		if g.Bool(50, "compound") {
+		if g.Bool(60, "compound") {
 			cp := c31Compound{Which: i}
 			for m := 0; m < 2; m++ {
-				if g.Bool(35, "tomb") {
+				if g.Bool(45, "tomb") {
 					cp.Tomb = append(cp.Tomb, m)
 				}
 			}
@@ -132,12 +135,12 @@ func genC31Site(g kit.G) c31Case {
 	l.Tenant = kit.Pick(g, []int{1, 2, 3}, "tenant")
 	c.Layout = l
 
-	n := g.Int(2, 8, "nops-site")
+	n := g.Int(2, 6, "nops-site")
 	sites := 0
 	for i := 0; i < n; i++ {
 		switch {
 		case g.Bool(35, "site-op"):
-			c.Ops = append(c.Ops, c31Op{Site: kit.Pick(g, []string{"merge", "merge", "vacuum", "delete"}, "site-kind")})
+			c.Ops = append(c.Ops, c31Op{Site: kit.Pick(g, c31SiteKinds, "site-kind")})
 			sites++
 		case g.Bool(12, "global"):
 			c.Ops = append(c.Ops, c31Op{Global: true})
@@ -146,11 +149,11 @@ func genC31Site(g kit.G) c31Case {
 		}
 	}
 	if sites == 0 {
-		c.Ops[g.U(n, "site-at")] = c31Op{Site: kit.Pick(g, []string{"merge", "merge", "vacuum", "delete"}, "site-kind")}
+		c.Ops[g.U(n, "site-at")] = c31Op{Site: kit.Pick(g, c31SiteKinds, "site-kind")}
 	}
 	ns := g.Int(n, 3*n, "nsteps")
 	for i := 0; i < ns; i++ {
-		if g.Bool(60, "start") {
+		if g.Bool(65, "start") {
 			c.Steps = append(c.Steps, -1)
 		} else {
 			c.Steps = append(c.Steps, g.Int(0, 5, "release"))
@@ -166,8 +169,10 @@ func genC31Site(g kit.G) c31Case {
 // ---- process-wide fixtures ---------------------------------------------------
 
 // c31Stub stands in for zoekt-merge-index. POSIX sh, no external commands (a
-// process start is the expensive part of a site case). It claims one of
-// c31Slots reply FIFOs (exclusive create of claim.<slot>), announces
+// process start is the expensive part of a site case) and no subshells. It
+// claims one of c31Slots reply FIFOs (exclusive create of claim.<slot> through
+// noclobber; "true" because a failed redirection on a special built-in such as
+// ":" would end the shell), announces
 // "S <slot> <args>", waits for "ok <output>" / "fail", announces "F <slot>" and
 // waits for the acknowledgement. The work of the real command on the index
 // directory is done by the harness on the command's behalf while it is being
@@ -176,10 +181,12 @@ const c31Stub = `#!/bin/sh
 ctl="$VERIF_C31_CTL"
 [ -n "$ctl" ] || exit 97
 i=0
-until (set -C; : > "$ctl/claim.$i") 2>/dev/null; do
+set -C
+until true > "$ctl/claim.$i"; do
   i=$((i+1))
-  [ $i -lt ` + "16" + ` ] || exit 98
-done
+  [ $i -lt 16 ] || exit 98
+done 2>/dev/null
+set +C
 echo "S $i $*" > "$ctl/ev"
 read verdict out < "$ctl/go.$i"
 rc=1
